@@ -117,7 +117,8 @@ def near_miss():
     """lines that a changed search needle (shorter, longer, other case) would classify differently"""
     return [b"/opt/mysnoopy.so", b"/lib/libsnoopy-extra.so", b"/lib/libsnoopy.s", b"/lib/LIBSNOOPY.SO", b"/lib/libsnoopy.so.1",
             b"libsnoopy.so", P_MAIN + b".0.0.0",        # a bare entry without any '/', the path followed by non-blank characters
-            P_MAIN + b"\r", P_MAIN + b"\x0b", P_MAIN + b"\x0c /lib/b.so", b"\t" + P_MAIN, b"  " + P_MAIN + b" /lib/b.so"]   # CR / VT / FF after the entry, indented entries
+            P_MAIN + b"\r", P_MAIN + b"\x0b", P_MAIN + b"\x0c /lib/b.so", b"\t" + P_MAIN, b"  " + P_MAIN + b" /lib/b.so",   # CR / VT / FF after the entry, indented entries
+            P_MAIN + b" # c\r", P_MAIN + b"\t\r", P_MAIN + b" /lib/b.so\r", P_MAIN + b"#\r"]       # the entry's line ends in CR (LF): CR is part of the line
 
 
 def adjacent(P):
